@@ -103,7 +103,11 @@ def _mag(r: Fraction):
 
 
 class SynWorld:
-    def __init__(self, spec, modules=("si",)):
+    def __init__(self, spec, modules=("si",), declare_now=True):
+        """declare_now=False: units are defined, but declarations are only collected in
+        self.plan (fixed order) and executed one by one with run_plan(i)  (C08)"""
+        self.declare_now = declare_now
+        self.plan = []
         self.spec = spec
         self.w = World(list(modules))
         m = self.w.m
@@ -161,8 +165,14 @@ class SynWorld:
             s *= (self.prefix_value(p) * self.size[u]) ** e
         return s
 
-    def declare(self, a: str, rhs_terms, flip: bool) -> None:
+    def declare(self, a: str, rhs_terms, flip: bool, force=False, factor=None) -> None:
         """a.equals(mag * rhs), or (flip, single plain rhs unit only) rhs.equals(mag * a)"""
+        if not self.declare_now and not force:
+            self.plan.append((a, rhs_terms, flip))
+            return
+        if factor is not None:
+            # a re-declaration with another ratio: the unit a changes its size
+            self.size[a] = self.size[a] * factor
         rhs = self.build(rhs_terms)
         r = self.size[a] / self.terms_size(rhs_terms)
         single_plain = len(rhs_terms) == 1 and rhs_terms[0][0] == "" and rhs_terms[0][2] == 1
@@ -171,6 +181,11 @@ class SynWorld:
         else:
             self.units[a].equals(_mag(r) * rhs)
         self.declared += 1
+
+
+def run_plan(sw: "SynWorld", i: int, factor=None) -> None:
+    a, rhs_terms, flip = sw.plan[i]
+    sw.declare(a, rhs_terms, flip, force=True, factor=factor)
 
 
 def valid_spec(spec) -> bool:
